@@ -122,6 +122,16 @@ class Mono(Engine2):
                 return self.dir_of(args[0], st)
             if name in ('std::min', 'std::max') and len(args) == 2:
                 return add(self.dir_of(args[0], st), self.dir_of(args[1], st))
+            ie = inline_expr(self.facts, e)
+            if ie is not None:
+                s2 = st.copy()
+                for p_, a_ in ie[1]:
+                    av = self.ev(a_, st)
+                    key = ('v', p_['id'])
+                    if av is not None:
+                        s2.env[key] = convert(av, p_['t']) if trange(p_['t']) else av
+                    self.mono[key] = self.dir_of(a_, st)
+                return self.dir_of(ie[0], s2)
             ds = [self.dir_of(a, st) for a in args]
             return C if all(d == C for d in ds) else UNK
         return C if not mentions(e, lambda y: self.key_of(y) == self.wrt) else UNK
